@@ -17,7 +17,7 @@ def engine_repo():
 from harness.engine import VERIF, coq_bad_cases, coq_list, zlit
 
 INFO = {
-    "extra_targets": ["Check/KernelCheck.vo", "Check/FloatKernelCheck2.vo"],
+    "extra_targets": ["Check/KernelCheck.vo", "Check/FloatKernelCheck2.vo", "Check/FloatSavingCheck.vo", "Proofs/FloatSaving.vo"],
     "level": "proof",
     "rule": "(a) the three adapters around USER-DEFINED exact integer costs (n-scaled residual sum of squares / n-scaled squared error at an integer "
             "baseline; range cost max-min) on integer data, p = 1..3: every adapter value must equal the cost difference of the definition exactly "
@@ -450,6 +450,34 @@ def run(ctx):
         m = fcu_meta[i]
         ctx.mismatch(f"CUSUM().evaluate({m['cut']}) = {m['impl_value']!r} is not what the kernel's documented operation order (sequential prefix sums, weights sqrt(na / (n nb)) and "
                      f"sqrt(nb / (n na)) with integer products, |bw before - aw after|) gives on binary64", m, {"what": "float-operation-order", "kernel": "cusum"})
+    # ---- the same for the L2 SAVING (Check/FloatSavingCheck.v, Proofs/FloatSaving.v): L2Saving.evaluate bit for bit, and the premise l2_saving_trace_ok of
+    # ---- C06_float_l2_saving_program_refines_rounding_model on the same cases
+    from skchange.anomaly_scores import L2Saving as _L2S
+    fsv_terms, fsv_meta = [], []
+    rng_s = np.random.default_rng(ctx.seed + 607)
+    for it in range(ctx.n(60, 500)):
+        n = int(rng_s.integers(1, 60))
+        p = int(rng_s.integers(1, 4))
+        Xf = rng_s.normal(size=(n, p)) * float(rng_s.choice([1.0, 1e-3, 1e4, 37.5])) + float(rng_s.choice([0.0, 0.0, 1e3, -7.25]))
+        s_ = int(rng_s.integers(0, n))
+        e_ = int(rng_s.integers(s_ + 1, n + 1))
+        vals = _L2S().fit(Xf).evaluate(np.asarray([[s_, e_]]))[0]
+        for j in range(p):
+            fsv_terms.append("{| fsv_xs := %s; fsv_s := %d%%nat; fsv_e := %d%%nat; fsv_val := %s |}" % (flist(Xf[:, j]), s_, e_, fl(vals[j])))
+            fsv_meta.append({"X_column": Xf[:, j].tolist(), "cut": [s_, e_], "impl_value": float(vals[j]), "column": j})
+        ctx.case({"fsv": it, "n": n, "cut": [s_, e_], "x0": float(Xf[0, 0])}, nontrivial=True)
+        ctx.count("float_kernel", "l2_saving")
+    fsv_header = ("From Coq Require Import PrimFloat List Arith Bool.\nFrom SK Require Import Lib.Base Check.FloatKernelCheck Check.FloatSavingCheck Proofs.FloatSaving.\n"
+                  "Import ListNotations.\nOpen Scope float_scope.")
+    prem = coq_bad_cases(ctx.cid, fsv_header, "fsv_case", "(fun c => l2_saving_trace_ok (fsv_xs c) (fsv_s c) (fsv_e c))", fsv_terms, shard=120, tag="fsvprem")
+    ctx.notes["float_saving_refinement_premise"] = f"l2_saving_trace_ok holds on {len(fsv_meta) - len(prem)} of {len(fsv_meta)} cases"
+    if len(prem) > len(fsv_meta) // 10:
+        ctx.mismatch(f"the premise l2_saving_trace_ok of the float refinement theorem fails on {len(prem)} of {len(fsv_meta)} ordinary cases", {"first": fsv_meta[prem[0]]},
+                     {"what": "float-refinement-premise", "kernel": "l2_saving"})
+    for i in coq_bad_cases(ctx.cid, fsv_header, "fsv_case", "fsv_ok_strict", fsv_terms, shard=120, tag="fsv")[:20]:
+        m = fsv_meta[i]
+        ctx.mismatch(f"L2Saving().evaluate({m['cut']}) = {m['impl_value']!r} is not what the kernel's operation order (sequential prefix sums, difference, square, division by the "
+                     f"length) gives on binary64", m, {"what": "float-operation-order", "kernel": "l2_saving"})
     # ---- MANY columns with a common non-unit scale: the determinant itself leaves the binary64 range long before its logarithm does ----
     from skchange.costs import GaussianCovCost as _GCC
     from skchange.change_scores import ChangeScore as _CS
